@@ -249,9 +249,10 @@ def run(rep: Report, prog: Program, tier: str) -> None:
     # "every message is delivered" needs the retransmission machinery to keep running: shared with C02
     from .sctploop import loop_rule
     loop_rule(rep, prog, PROP, "C01-LOOP", tier)
-    import_rules(rep, prog, tier, PROP, "C01-RETX", "C02", ["C02-T3", "C02-KICK", "C02-FS"],
+    import_rules(rep, prog, tier, PROP, "C01-RETX", "C02", ["C02-T3", "C02-KICK", "C02-FS", "C02-REINIT", "C02-HANDSHAKE"],
                  "lost chunks keep being retransmitted: T3 is (re)armed whenever data is outstanding, queued data is kicked, flight-size accounting cannot stall "
-                 "the sender (rules C02-T3, C02-KICK, C02-FS)", 10)
+                 "the sender; the receive state is only (re)initialised by the handshake, so a late duplicate of a handshake datagram cannot make old data count as new "
+                 "(rules C02-T3, C02-KICK, C02-FS, C02-REINIT, C02-HANDSHAKE)", 10)
 
     # ---------------- C01-REASM: _receive_data_chunk evaluated over every arrival order of small interleaved message sets
     rep.rule("C01-REASM", "every arrival order (with a duplicate) of interleaved messages on two streams: exactly once, intact, in order, nothing left behind", min_instances=100)
